@@ -33,6 +33,9 @@ CHECKS = {
  "C13": ("exploration", "producer-vs-replica differential + pool-order oracle: pools of dependent / key-sharing / oversized / timer-triggering transactions; GetUnconfirmedTx sampled 8x per pool (producer<consumer, reader<overwriter); block packed as miner.packBlock does, VerifyBlock / IsValidTx, two replicas that never saw the pool (confirm+Walk, confirm+Play) vs producer (PlayForMiner): all observables equal",
          "Runtime differential monitor over hundreds (quick) / thousands (thorough) of pools; held on what was explored; one timer-transaction defect is a known finding.",
          "Trusted: the transcription of miner.packBlock's glue (simnode/miner.go, 40 lines; all ledger/state calls are the real ones); Go map iteration randomness is sampled, not enumerated.", "DESIGN.md §3 C13"),
+ "C12": ("exploration", "lock-protocol holder-table monitor on the SpinLock API under stress + free-running concurrent rounds on a real node (conflict families, selectors, concurrent Play) under the Go race detector; each round's call/return history is checked for an explaining sequential order with porcupine against the statement-level model, plus contention-refusal, selection-disjointness and quiescent-state (pool validity, conservation, canon, live==twin) auditors",
+         "Runtime monitoring of real concurrent executions (hundreds of rounds quick, thousands thorough) with an offline linearizability check per round; interleavings are those the scheduler produced, not an enumeration.",
+         "Trusted: porcupine v1.3.0; the statement-level model; race reports count only when both frames lie in spin_lock.go / utxo.go / utxo_cache.go / xmodel.go / state.go.", "DESIGN.md §3 C12"),
 }
 NOT_YET = "check not built yet in this session (work in progress; see DESIGN.md for the planned monitor)"
 ALL = ["C%02d" % i for i in range(1, 21)]
